@@ -156,7 +156,7 @@ class Main(Suite):
     go_cmd = "c28"
     coq_imports = "From GoGit Require Import Model.Status Model.IndexOps Spec.GitIndexOps."
     quick_n = 110
-    thorough_n = 3000
+    thorough_n = 400
     coq_chunk = 60
 
     def gen(self, rng, n, tier):
